@@ -83,6 +83,9 @@ def main(ctx):
         return None
     selftest_reject(ctx, "Trace_OverlayDb.tla", "Trace_OverlayDb.cfg", trace, mutate)
 
+    # 5. chain level (part B): canonical state untouched by speculative work, read-only / historical views exact
+    chain_cov = chain_part(ctx, quick)
+
     samples = [r.exports[0], r.exports[len(r.exports) // 2], r.exports[-1]]
     cov = {
         "states": r.distinct, "transitions": r.generated,
@@ -91,6 +94,7 @@ def main(ctx):
         "samples": samples,
         "exhaustive": True,
         "model_cfg": cfg,
+        "chain_level": chain_cov,
         "rule": "every transition of the bounded OverlayDb model (all base contents x set/delete/batch) replayed on the "
                 "real BackedMemDb with a complete observation (Get/Has for every key, forward+reverse iteration over "
                 "every border pair); plus %d seeded random sequences of %d ops over 12 keys" % (nrand, rlen),
@@ -99,6 +103,39 @@ def main(ctx):
         "tm-db MemDB is the reference semantics of an ordinary store",
         "iteration is atomic (no writes while an iterator is open), as in the IAVL callers",
     ])
+
+
+CHAIN_CLAUSES = {"CanonUntouched", "HistoricalExact", "ReadonlyHeadExact"}
+
+
+def chain_describe(clause, row, rows, line):
+    if clause == "CanonUntouched":
+        who = sorted(k for k, v in (row.get("canon") or {}).items() if not v)
+        return ("CanonUntouched", "speculative validation / proposal / read-only query changed the canonical database or live root on replica(s) %s "
+                "around block %s of history %s" % (who, row.get("h"), row.get("hid")))
+    reorged = any(x.get("ev") == "Reset" and x.get("hid") == row.get("hid") for x in rows[:line])
+    key = "%s:%s" % (clause, "after-fork-switch" if reorged else "linear")
+    what = "read-only view of height %s (history %s, block line %s) does not return what was committed there: %s" % (
+        (row.get("hist") or {}).get("h", row.get("h")), row.get("hid"), row.get("h"),
+        json.dumps({k: row.get(k) for k in ("hist", "rohead")})[:400])
+    return key, what
+
+
+def chain_part(ctx, quick):
+    import chainlib
+    trace, stats, out = chainlib.run_histories(ctx, quick, extra_args=["-reorgs"])
+    if stats is None:
+        raise vlib.CheckError("chain driver failed:\n" + out[-3000:])
+    ok, info = chainlib.validate(ctx, trace, "Trace_Replicas.tla", "Trace_Replicas.cfg", CHAIN_CLAUSES, "C13", chain_describe)
+    rows = vlib.read_ndjson(trace)
+    blocks = [x for x in rows if x.get("ev") == "Block" and not x.get("refused")]
+    spec_ops = sum(len(x.get("canon") or {}) for x in blocks)
+    hist_q = sum(1 for x in blocks if "hist" in x)
+    if spec_ops == 0 or hist_q == 0:
+        raise vlib.CheckError("chain part never exercised a speculative operation / historical query (dead driver)")
+    return {"histories": stats.get("histories", 0), "blocks": len(blocks), "speculative_ops_digested": spec_ops,
+            "historical_queries": hist_q, "readonly_head_queries": sum(1 for x in blocks if "rohead" in x),
+            "fork_switches": sum(1 for x in rows if x.get("ev") == "Reset")}
 
 
 def crash_verdict(ctx, p, r):
